@@ -1,0 +1,54 @@
+//go:build verif
+
+// Contracts for Message.Marshal (C05: "the segment table matches the segments, every segment is
+// word aligned").  PARTIAL: the assertions, the loop invariants and the index obligations are
+// decided; the layout of the whole output (header followed by the segments in order) is not.
+package capnp
+
+//@ func Message.segment -> seg, err
+//@   props C05
+//@   trusted
+//@   requires m != nil && m.Arena != nil
+//@   modifies Message.segs Message.firstSeg Segment.id Segment.msg Segment.data m:map[capnproto.org/go/capnp/v3.SegmentID]*capnproto.org/go/capnp/v3.Segment
+//@   ensures implies(err != nil, seg == nil)
+//@   ensures implies(err == nil, seg != nil)
+
+//@ func Message.NumSegments -> n
+//@   props C05
+//@   trusted
+//@   requires m != nil && m.Arena != nil
+//@   modifies nothing
+//@   -- "NumSegments ... must not be larger than 1<<32" (Arena documentation)
+//@   ensures n >= 0 && n <= 1<<32
+
+//@ func Message.Marshal -> r, err
+//@   props C04 C05
+//@   partial bounds makeslice
+//@   requires m != nil && m.Arena != nil
+//@   loop 0 "i < nsegs"
+//@     invariant 0 <= i && i <= nsegs && 1 <= nsegs && nsegs <= 1<<32 && hdrSize == streamHeaderSize(SegmentID(nsegs-1)) && hdrSize <= uint64(maxInt)
+//@     invariant dataSize <= uint64(maxInt)
+//@   loop 1 "i < nsegs"
+//@     invariant 0 <= i && i <= nsegs && 1 <= nsegs && nsegs <= 1<<32 && hdrSize == streamHeaderSize(SegmentID(nsegs-1)) && hdrSize <= uint64(maxInt)
+//@     invariant M(len(buf)) >= M(hdrSize)
+//@   -- the first header word announces the number of segments minus one
+//@   assert before "for i := int64(0); i < nsegs; i++ {#1" count: len(buf) == int(hdrSize) && LE32(buf, 0) == uint32(nsegs-1)
+//@   -- entry i of the segment table is the size of segment i in words, and segment i is whole words
+//@   assert after "binary.LittleEndian.PutUint32(buf[int(i+1)*4:]" entry: len(s.data)&7 == 0 && LE32(buf, 4+4*int(i)) == uint32(len(s.data)>>3)
+
+//@ func appendUint32 -> r
+//@   props C04 C05
+//@   old n0 int = len(b)
+//@   ensures len(r) == n0+4 && LE32(r, n0) == v
+//@   ensures kept: forall(0, n0, func(j int) bool { return r[j] == oldbyte(b, j) })
+
+// Encoder.Encode builds the same segment table with appendUint32 (PARTIAL, as for Marshal).
+//@ func Encoder.Encode -> err
+//@   props C04 C05
+//@   partial bounds
+//@   requires e != nil && m != nil && m.Arena != nil
+//@   loop 0 "i < nsegs"
+//@     invariant 0 <= i && i <= nsegs && 1 <= nsegs && nsegs <= 1<<32 && len(e.hdrbuf) == 4*(int(i)+1) && len(e.bufs) >= 1
+//@   -- entry i of the segment table is the size of segment i in words, and segment i is whole words
+//@   assert after "e.hdrbuf = appendUint32(e.hdrbuf, uint32(Size(n)/wordSize))" entry: len(s.data)&7 == 0 &&
+//@     len(e.hdrbuf) == 4*(int(i)+2) && LE32(e.hdrbuf, 4+4*int(i)) == uint32(len(s.data)>>3)
